@@ -170,6 +170,30 @@ func InstallClock(r *Rep, lamport uint64) {
 	r.ResetTransaction()
 }
 
+// InstallEra sets the era of the replica's operation ids (through GetMeta/SetMeta).
+func InstallEra(r *Rep, era uint32) {
+	meta, err := r.W.GetMeta()
+	if err != nil {
+		panic(err)
+	}
+	var m map[string]interface{}
+	dec := json.NewDecoder(strings.NewReader(string(meta)))
+	dec.UseNumber()
+	if err := dec.Decode(&m); err != nil {
+		panic(err)
+	}
+	opid, _ := m["opID"].(map[string]interface{})
+	opid["e"] = json.Number(strconv.FormatUint(uint64(era), 10))
+	nm, _ := json.Marshal(m)
+	if err := r.W.SetMeta(nm); err != nil {
+		panic(err)
+	}
+	r.ResetTransaction()
+	if ge, ok := r.W.(interface{ GetEra() uint32 }); !ok || ge.GetEra() != era {
+		panic("era not installed: " + string(nm))
+	}
+}
+
 // CUID returns the replica's client id.
 func (r *Rep) CUID() string { return r.W.GetCUID() }
 
